@@ -192,6 +192,14 @@ def check_C12(ctx):
     # one length further over the symbols that make patterns open-ended or separator-ambiguous
     RED = ['foo', ';', ',', '<A>', '<P>']
     pats += [list(p) for p in itertools.product(RED, repeat=L + 1)]
+    # keywords and punctuation of the statement grammar right after a slot-and-separator (or at the start), followed by each
+    # slot kind: what may CONTINUE a statement sequence / argument list decides whether the pattern is prefix-deterministic
+    KWS = ['GOTO', 'LOOP', 'WHILE', 'IF', 'STOP', 'RUN', 'WITH', 'END', 'DO', 'THEN', ':=', '=', ':', '(', ')', '!= 0']
+    for pre in ([], ['<P>', ';'], ['<A>', ','], ['<V>'], ['<ID>']):
+        for kw in KWS:
+            for tail in ([], ['<ID>'], ['<INT>'], ['<V>'], ['<A>'], ['<P>'], ['foo'], ['<ID>', '=', '<INT>', 'THEN', 'GOTO', '<V>'], ['<ID>', 'DO', '<P>', 'END']):
+                if pre or tail:
+                    pats.append(pre + [kw] + tail)
     ctx.cov['exhaustive'] = True
     ctx.cov['patterns'] = len(pats)
     # each pattern alone, with a second harmless macro to see that a rejected one does not block others
@@ -383,6 +391,21 @@ def check_C13(ctx, thms=None):
         if len(inputs) > 150:
             inputs = r.sample(inputs, 150)
         cases.append((N, rules, prefix, inputs, mt))
+    # recursive grammars with inputs much longer than their number of LR states: the work of the driver (deferred reductions
+    # of right recursion, stack depth) grows with the INPUT, not with the tables
+    t_, n_ = (lambda k: ('t', k)), (lambda k: ('n', k))
+    fixed = [
+        (1, [(0, [t_(1), n_(0)]), (0, [t_(1)])], [[1] * k for k in range(0, 41)]),                               # A -> a A | a
+        (1, [(0, [t_(1), n_(0)]), (0, [])], [[1] * k for k in range(0, 41)]),                                    # A -> a A | eps
+        (1, [(0, [n_(0), t_(1)]), (0, [t_(1)])], [[1] * k for k in range(0, 41)]),                               # L -> L a | a
+        (1, [(0, [t_(1), n_(0), t_(2)]), (0, [])], [[1] * k + [2] * j for k in range(0, 21) for j in (k, k + 1) if k + j <= 40]),   # S -> a S b | eps
+        (2, [(0, [n_(1)]), (1, [t_(1), t_(2), n_(1)]), (1, [t_(1)])], [[1, 2] * k + [1] for k in range(0, 20)] + [[1, 2] * 5]),      # x ; x ; x
+        (2, [(0, [t_(1), n_(1)]), (1, [t_(1), n_(1)]), (1, [t_(2)])], [[1] * k + [2] for k in range(0, 40)]),   # a+ b, right recursive
+    ]
+    for (N, rules, inputs) in fixed:
+        mt = max(s_[1] for (_, a_) in rules for s_ in a_ if s_[0] == 't')
+        for prefix in (False, True):
+            cases.append((N, rules, prefix, inputs, mt))
     reqs = []
     for (N, rules, prefix, inputs, mt) in cases:
         # the API also accepts explicit epsilon symbols anywhere inside a right-hand side (they mean nothing): some
